@@ -84,7 +84,7 @@ PROPS['C11'] = dict(
     level_text='All fault sequences symbolically: each I/O call may fail independently on every path of the real code.',
     level_note='Known finding E2 (Err after the header was written) is listed in known_findings.txt and printed, not alarmed. Same trusted base as C02.',
     assumptions=[A_TOOLS, A_ARITH, A_FILE, A_SEQ, A_PAGEMUT],
-    not_covered=['behaviour of later transactions after E2 (demonstrated by replays/repro.rs e2)', 'short writes inside write_all (std retries; modelled as Ok or Err)'],
+    not_covered=['behaviour of later transactions after E2 (demonstrated by replays/repro.rs e2 / e2b)', 'a failed mmap after a successful extension (fault class not listed in the property; observed, see DESIGN 11.4)'],
 )
 
 PROPS['C03'] = dict(
@@ -114,7 +114,7 @@ PROPS['C06'] = dict(
     level_text='Contracts on the real bodies of every mutating entry point and of begin/end/commit, for all inputs.',
     level_note='InnerBucket methods are assumed never to answer ReadOnlyTx (backed by a census of the token in src/, recorded in the evidence). Known finding E2 listed. Opening an existing file (O1) is covered by C15/C16 units when built.',
     assumptions=[A_TOOLS, A_ARITH, A_SEQ, A_FILE, 'RefCell stand-in: sequential view, borrow-flag panics not modelled', 'InnerBucket::* (tree layer) by assumed contract: never returns ReadOnlyTx; frame tree_frame on the TxFreelist'],
-    not_covered=['"a call that returns an error changes nothing" for the bucket-level mutators (tree layer not under contract)', 'later commits behaving as if an abandoned transaction never existed is by X1 (fresh clone) + paper argument'],
+    not_covered=['"a call that returns an error changes nothing" is proved for InnerBucket::{delete, put_leaf, delete_bucket, bucket_getter} over an ASSUMED tree interface (search / node materialisation), not for the tree layer below it', 'later commits behaving as if an abandoned transaction never existed is by X1 (fresh clone) + paper argument'],
 )
 
 PROPS['C16'] = dict(
@@ -188,10 +188,10 @@ PROPS['C05'] = dict(
                 'a new file starts with two valid headers, an empty free-list page and an empty leaf (O1); node entries stay strictly ascending under insert/delete (N1); element headers and payloads '
                 'round-trip through the real pointer code inside the page run (K2, BOUNDED, thorough tier).',
     level_text='Unbounded proofs of the allocator / free-list / commit-publication obligations on the real code; bounded Kani harnesses (labelled, not counted) for the raw-pointer codec.',
-    level_note='NOT decided: that the B+tree layer frees each page at most once (the nested-bucket double free named in the property text lives in InnerBucket::delete_bucket), key order across pages, separator bounds, '
+    level_note='The nested-bucket double free named in the property text (E10, repaired) is now a step obligation of InnerBucket::delete_bucket (a nested root queued for freeing is not already freed by this transaction). NOT decided: that rebalance/spill free each page at most once, key order across pages, separator bounds, '
                'reachability-exactly-once, and agreement of TxInner::check (a worklist graph traversal, not under contract). L3 composition on paper; fl_nodup is an assumption.',
     assumptions=[A_TOOLS, A_ARITH, A_TREE, A_FILE, A_PAGEMUT, A_ELEMS, A_SEQ],
-    not_covered=['double free / duplicated pages by the tree layer (rebalance, merge, nested bucket delete)', 'key order across pages and separator bounds', 'TxInner::check agreement'],
+    not_covered=['duplicated or leaked pages caused by rebalance / merge / spill (bounded: cex/history.rs + DB::check after every commit; reproductions e9, e11)', 'key order across pages and separator bounds (E11 lived here; bounded only)', 'TxInner::check agreement'],
 )
 PROPS['C01'] = dict(
     bounded_quick=[('history', 'Node::split / spill / write / free_page, InnerBucket::merge_nodes / rebalance / spill (Rc<RefCell<Node>> graph, float thresholds), Page::write_node / Node::from_page beyond the bounded Kani codec'), ('cursor', 'Node::split / spill / write / free_page, InnerBucket::merge_nodes / rebalance / spill (Rc<RefCell<Node>> graph, float thresholds), Page::write_node / Node::from_page beyond the bounded Kani codec')],
@@ -205,10 +205,10 @@ PROPS['C01'] = dict(
                 'serialising a node and reading it back through the real pointer code yields the same entries (K2, BOUNDED, thorough tier); the documented-misuse panic on a deleted bucket is the only '
                 'precondition of the bucket mutators (G1).',
     level_text='Proved leaf-level operations plus bounded codec; the property\'s quantifier over whole histories is NOT decided.',
-    level_note='put_leaf / bucket_getter (insertion counter), merge_nodes, spill, root collapse and nested-bucket propagation live in InnerBucket (Rc<RefCell>, HashMap<Bytes,..>, mmap pointers) and are out of reach of both verifiers; '
-               'the shape-dependent commit panic named in the property text cannot be found by this check.',
+    level_note='Per-call clauses are proved for InnerBucket::{get, delete, put_leaf, delete_bucket, bucket_getter} over an assumed tree interface (error kinds, counters, error-changes-nothing) and for the key type Bytes (ordered as byte strings). '
+               'merge_nodes, spill, root collapse and nested-bucket propagation work on an Rc<RefCell<Node>> graph and are out of reach of both verifiers; the shape-dependent commit panics named in the property text (found as E9, E11, E12 and repaired) are guarded by the bounded oracles and reproductions only.',
     assumptions=[A_TOOLS, A_ARITH, A_TREEIF, A_ELEMS, 'RefCell stand-in', 'byte-string order is a strict total order'],
-    not_covered=['every history-level clause of the statement: commit/reopen equivalence with a reference nested map, per-bucket counters, nested buckets', 'rebalance / spill / merge / root collapse'],
+    not_covered=['deductively: every history-level clause of the statement (commit/reopen equivalence with a reference nested map across transactions); these are exercised only by the BOUNDED history oracle cex/history.rs that runs on every check', 'rebalance / spill / merge / root collapse (InnerBucket::merge_nodes, Node::spill/split): bounded oracles and reproductions e9, e11, e12 only'],
 )
 
 PENDING = 'not claimed yet in this build session: deciding units are not built (see DESIGN section 10)'
